@@ -21,10 +21,18 @@ Proof. intros H c. rewrite forallb_forall in H. apply H, all_ascii_in. Qed.
 Definition stop3 (c : ascii) : bool := eqc c 44 || eqc c 124 || eqc c 0.
 Definition namec (c : ascii) : bool := negb (eqc c 58 || is_ws c || eqc c 40 || stop3 c || eqc c 91 || eqc c 60).
 Definition mac (c : ascii) : bool := negb (multiarch_stop c).
-Definition numc (c : ascii) : bool := negb (eqc c 0 || eqc c 41).
-Definition archc (c : ascii) : bool := negb (eqc c 0 || eqc c 33 || eqc c 93 || is_ws c).
-Definition stagec (c : ascii) : bool := negb (eqc c 0 || eqc c 33 || eqc c 62 || is_ws c).
-Definition subc (c : ascii) : bool := negb (eqc c 0 || eqc c 125).
+Definition numc (c : ascii) : bool := negb (bad_in_number c || eqc c 41).
+Definition archc (c : ascii) : bool := negb (bad_in_arch c || eqc c 33 || eqc c 93 || is_ws c).
+Definition stagec (c : ascii) : bool := negb (bad_in_stage c || eqc c 33 || eqc c 62 || is_ws c).
+Definition subc (c : ascii) : bool := negb (bad_in_substvar c || eqc c 125).
+Lemma bad_number_0 c : bad_in_number c = false -> eqc c 0 = false.
+Proof. unfold bad_in_number. intros H. now repeat (apply orb_false_iff in H as [H _]). Qed.
+Lemma bad_arch_0 c : bad_in_arch c = false -> eqc c 0 = false.
+Proof. unfold bad_in_arch. intros H. now repeat (apply orb_false_iff in H as [H _]). Qed.
+Lemma bad_stage_0 c : bad_in_stage c = false -> eqc c 0 = false.
+Proof. unfold bad_in_stage. intros H. now repeat (apply orb_false_iff in H as [H _]). Qed.
+Lemma bad_substvar_0 c : bad_in_substvar c = false -> eqc c 0 = false.
+Proof. unfold bad_in_substvar. intros H. now repeat (apply orb_false_iff in H as [H _]). Qed.
 
 Lemma enc_one c : enc c = [c]. Proof. reflexivity. Qed.
 
@@ -42,7 +50,7 @@ Lemma substvar_word : forall w name rest, forallb subc w = true ->
   Ok ({| p_name := name ++ w; p_arch := None; p_archs := None; p_stages := []; p_ver := None; p_subst := true |}, eat_ws rest).
 Proof.
   induction w as [|c w IH]; intros name rest H St.
-  - cbn [app substvar_loop]. change (eqc (ch 125) 0) with false. change (eqc (ch 125) 125) with true. cbv iota. cbv zeta.
+  - cbn [app substvar_loop]. change (bad_in_substvar (ch 125)) with false. change (eqc (ch 125) 125) with true. cbv iota. cbv zeta.
     rewrite St. now rewrite app_nil_r.
   - cbn [forallb] in H. apply andb_true_iff in H as [Hc Hw]. unfold subc in Hc. apply negb_true_iff in Hc.
     apply orb_false_iff in Hc as [C1 C2]. cbn [app substvar_loop]. rewrite C1, C2, enc_one, IH by assumption.
@@ -77,10 +85,10 @@ Proof.
   induction w as [|c w IH]; intros name rest H Hs Hne.
   - cbn [app]. rewrite app_nil_r. destruct rest as [|c r]; [congruence|]. cbn in Hs. cbn [arch_name_loop].
     apply orb_true_iff in Hs as [Hs|Hs].
-    + assert (E0 : eqc c 0 = false) by (unfold eqc in *; apply N.eqb_eq in Hs; rewrite Hs; reflexivity).
-      assert (E33 : eqc c 33 = false) by (unfold eqc in *; apply N.eqb_eq in Hs; rewrite Hs; reflexivity).
-      now rewrite E0, E33, Hs.
-    + pose proof (by_enum (fun c => negb (is_ws c) || (negb (eqc c 0) && negb (eqc c 33))) eq_refl c) as F. cbv beta in F.
+    + pose proof (by_enum (fun c => negb (eqc c 93) || (negb (bad_in_arch c) && negb (eqc c 33))) eq_refl c) as F. cbv beta in F.
+      rewrite Hs in F. cbn [negb orb] in F. apply andb_true_iff in F as [F1 F2]. apply negb_true_iff in F1, F2.
+      now rewrite F1, F2, Hs.
+    + pose proof (by_enum (fun c => negb (is_ws c) || (negb (bad_in_arch c) && negb (eqc c 33))) eq_refl c) as F. cbv beta in F.
       rewrite Hs in F. cbn in F. apply andb_true_iff in F as [F1 F2]. apply negb_true_iff in F1, F2.
       rewrite F1, F2, Hs. now rewrite orb_true_r.
   - cbn [forallb] in H. apply andb_true_iff in H as [Hc Hw]. unfold archc in Hc. apply negb_true_iff in Hc.
@@ -94,7 +102,7 @@ Lemma stage_word : forall w st rest, forallb stagec w = true ->
 Proof.
   induction w as [|c w IH]; intros st rest H Hs Hne.
   - cbn [app]. rewrite app_nil_r. destruct rest as [|c r]; [congruence|]. cbn in Hs. cbn [stage_loop].
-    pose proof (by_enum (fun c => negb (eqc c 62 || is_ws c) || (negb (eqc c 0) && negb (eqc c 33))) eq_refl c) as F. cbv beta in F.
+    pose proof (by_enum (fun c => negb (eqc c 62 || is_ws c) || (negb (bad_in_stage c) && negb (eqc c 33))) eq_refl c) as F. cbv beta in F.
     rewrite Hs in F. cbn in F. apply andb_true_iff in F as [F1 F2]. apply negb_true_iff in F1, F2.
     rewrite F1, F2, Hs. destruct st; reflexivity.
   - cbn [forallb] in H. apply andb_true_iff in H as [Hc Hw]. unfold stagec in Hc. apply negb_true_iff in Hc.
@@ -207,7 +215,7 @@ Proof.
         - cbn [app]. destruct (arch_string e) as [|c r]; [now specialize (Hn eq_refl)|]. exists c, (r ++ more).
           cbn in Hc. apply andb_true_iff in Hc as [Hc _]. unfold archc in Hc. apply negb_true_iff in Hc.
           apply orb_false_iff in Hc as [Hc _]. apply orb_false_iff in Hc as [Hc C3]. apply orb_false_iff in Hc as [C1 _].
-          repeat split; auto. }
+          apply bad_arch_0 in C1. repeat split; auto. }
       destruct Hhd as (c&r&E&C0&C93). rewrite E. rewrite C0, C93. rewrite <- E.
       rewrite (parse_one_arch_render nt acc e more We (or_intror I) Hs Hm). reflexivity. }
     destruct l as [|e2 l'].
@@ -273,7 +281,7 @@ Proof.
         - cbn [app]. destruct (s_name st) as [|c r]; [now specialize (Hn eq_refl)|]. exists c, (r ++ more).
           cbn in Hc. apply andb_true_iff in Hc as [Hc _]. unfold stagec in Hc. apply negb_true_iff in Hc.
           apply orb_false_iff in Hc as [Hc _]. apply orb_false_iff in Hc as [Hc C3]. apply orb_false_iff in Hc as [C1 _].
-          repeat split; auto. }
+          apply bad_stage_0 in C1. repeat split; auto. }
       destruct Hhd as (c&r&E&C0&C62). rewrite E. rewrite C0, C62. rewrite <- E.
       rewrite ?(eat_ws_id _ HO). rewrite (stage_render st more Ws Hs Hm). reflexivity. }
     destruct l as [|st2 l'].
